@@ -103,6 +103,7 @@ type env struct {
 	fake   *fakes3.Fake               // an object store that can fail requests late
 	s3Stor *storage.Storage           // the delivery side with that object store enabled
 	s3Read *blobstorage.S3BlobStorage // the IMAP side's handle on it
+	flakyN int // which late failure the next flaky transaction gets
 }
 
 var reExists = regexp.MustCompile(`\* (\d+) EXISTS`)
@@ -301,7 +302,8 @@ func (e *env) play(t txCase) {
 		// an object store that is up but fails one request late (the body has been sent): the upload is retried, falls back,
 		// or the delivery is refused — whatever is acknowledged can be fetched
 		e.fake.Mu.Lock()
-		e.fake.Script = []string{"500"}
+		e.fake.Script = [][]string{{"put:409"}, {"500"}, {"put:500"}, {"put:drop"}}[e.flakyN%4]
+		e.flakyN++
 		e.fake.Mu.Unlock()
 		oldStor := e.w.Stor
 		e.w.Stor = e.s3Stor
